@@ -252,7 +252,26 @@ def replay(cand):
             obs.append((k, t[j], (rv[j] * un).to_value(u.km / u.s) if True else rv[j], (err[j] * eun).to_value(u.km / u.s)))
     labels = [o[2] for o in obs]
     if len(set(np.round(labels, 12))) != len(labels):
-        return {"reproduced": False, "detail": "model velocities are not distinct labels"}
+        # rows cannot be told apart by velocity: what can still be judged is the union's size and the per-survey counts,
+        # on the model's input and on two surveys that share one bit-identical visit at their common boundary epoch
+        if shape["input"] == "single":
+            return {"reproduced": False, "detail": "model velocities are not distinct labels"}
+        bad = []
+        keys = list(range(K)) if shape["input"] == "list" else _KEYS[shape["input"]][:K]
+        twin = [RVData(np.array([1.0, 2.0, 3.0]) + 56000.0, np.array([5.0, 6.0, 7.0]) * u.km / u.s, np.array([0.1, 0.2, 0.3]) * u.km / u.s),
+                RVData(np.array([3.0, 4.0, 5.0]) + 56000.0, np.array([7.0, 8.0, 9.0]) * u.km / u.s, np.array([0.3, 0.4, 0.5]) * u.km / u.s)]
+        for what, ss, kk in (("the model's input", srcs, keys), ("two surveys sharing one identical visit", twin, keys[:2] if len(keys) >= 2 else [0, 1])):
+            dd = list(ss) if shape["input"] == "list" else {k_: d_ for k_, d_ in zip(kk, ss)}
+            try:
+                ad, ids_, M_ = validate_prepare_data(dd, 1, len(ss) - 1)
+            except Exception as e:
+                bad.append("%s: validate_prepare_data raised %s: %s" % (what, type(e).__name__, str(e)[:150]))
+                continue
+            want = sorted(len(d_) for d_ in ss)
+            got = sorted(int(np.sum(np.asarray(ids_) == k_)) for k_ in (range(len(ss)) if shape["input"] == "list" else kk))
+            if len(ad) != sum(want) or got != want:
+                bad.append("%s: merged data hold %d observations with per-survey counts %s; the inputs hold %s" % (what, len(ad), got, want))
+        return {"reproduced": bool(bad), "detail": "; ".join(bad)[:900] or "model velocities are not distinct labels; union sizes agree"}
     if shape["input"] == "single":
         data, keys = srcs[0], [0]
     elif shape["input"] == "list":
